@@ -48,12 +48,22 @@ type clientInvocation struct {
 	request      wamp.ID
 }
 
+// replyWaiter is the rendezvous between an API goroutine waiting for the
+// reply to a request and the run() goroutine delivering it.
+type replyWaiter struct {
+	// Replies to the request are sent on ch by run().
+	ch chan wamp.Message
+	// gone is closed by the waiting goroutine when it stops reading ch, so
+	// that run() never blocks handing over a reply nobody will take.
+	gone chan struct{}
+}
+
 // A Client routes messages to/from a WAMP router.
 type Client struct {
 	sess *wamp.Session
 
 	responseTimeout time.Duration
-	awaitingReply   map[wamp.ID]chan wamp.Message
+	awaitingReply   map[wamp.ID]*replyWaiter
 
 	eventHandlers map[wamp.ID]EventHandler
 	topicSubID    map[string]wamp.ID
@@ -283,7 +293,7 @@ func NewClient(p wamp.Peer, cfg Config) (*Client, error) {
 		sess: sess,
 
 		responseTimeout: cfg.ResponseTimeout,
-		awaitingReply:   map[wamp.ID]chan wamp.Message{},
+		awaitingReply:   map[wamp.ID]*replyWaiter{},
 
 		eventHandlers: map[wamp.ID]EventHandler{},
 		topicSubID:    map[string]wamp.ID{},
@@ -502,9 +512,6 @@ func (c *Client) Publish(topic string, options wamp.Dict, args wamp.List, kwargs
 	} else {
 		// Check if the client is asking for a PUBLISHED response.
 		pubAck, _ = options[wamp.OptAcknowledge].(bool)
-		if pubAck {
-			c.expectReply(id)
-		}
 	}
 
 	message := &wamp.Publish{
@@ -551,6 +558,11 @@ func (c *Client) Publish(topic string, options wamp.Dict, args wamp.List, kwargs
 		message.ArgumentsKw = kwargs
 	}
 
+	// Expect a reply only once nothing can prevent the request from being
+	// sent, so that no awaitingReply entry is left without a waiter.
+	if pubAck {
+		c.expectReply(id)
+	}
 	c.sess.Send() <- message
 
 	if !pubAck {
@@ -800,7 +812,6 @@ func (c *Client) Call(ctx context.Context, procedure string, options wamp.Dict, 
 	}
 
 	id := c.sess.IDGen.Next()
-	c.expectReply(id)
 	message := &wamp.Call{
 		Request:   id,
 		Procedure: wamp.URI(procedure),
@@ -812,6 +823,9 @@ func (c *Client) Call(ctx context.Context, procedure string, options wamp.Dict, 
 		return nil, err
 	}
 
+	// Expect a reply only once nothing can prevent the request from being
+	// sent, so that no awaitingReply entry is left without a waiter.
+	c.expectReply(id)
 	c.sess.Send() <- message
 
 	// Wait to receive RESULT message.
@@ -899,7 +913,6 @@ func (c *Client) CallProgressive(ctx context.Context, procedure string, sendProg
 	}
 
 	id := c.sess.IDGen.Next()
-	c.expectReply(id)
 	message := &wamp.Call{
 		Request:   id,
 		Procedure: wamp.URI(procedure),
@@ -911,6 +924,9 @@ func (c *Client) CallProgressive(ctx context.Context, procedure string, sendProg
 		return nil, err
 	}
 
+	// Expect a reply only once nothing can prevent the request from being
+	// sent, so that no awaitingReply entry is left without a waiter.
+	c.expectReply(id)
 	c.sess.Send() <- message
 
 	callInProgress, _ := options[wamp.OptProgress].(bool)
@@ -1325,9 +1341,12 @@ func unexpectedMsgError(msg wamp.Message, expected wamp.MessageType) error {
 }
 
 func (c *Client) expectReply(id wamp.ID) {
-	wait := make(chan wamp.Message)
+	w := &replyWaiter{
+		ch:   make(chan wamp.Message),
+		gone: make(chan struct{}),
+	}
 	c.sess.Lock()
-	c.awaitingReply[id] = wait
+	c.awaitingReply[id] = w
 	c.sess.Unlock()
 }
 
@@ -1337,14 +1356,17 @@ func (c *Client) expectReply(id wamp.ID) {
 // run() goroutine may be blocked waiting for a reply to be read from the
 // awaiting reply channel.
 func (c *Client) waitForReply(id wamp.ID) (wamp.Message, error) {
-	var wait chan wamp.Message
+	var w *replyWaiter
 	var ok bool
 	c.sess.Lock()
-	wait, ok = c.awaitingReply[id]
+	w, ok = c.awaitingReply[id]
 	c.sess.Unlock()
 	if !ok {
 		return nil, fmt.Errorf("not expecting reply for ID: %v", id)
 	}
+	// Whichever way this returns, release run() if it is handing over a reply.
+	defer close(w.gone)
+	wait := w.ch
 
 	var msg wamp.Message
 	var err error
@@ -1375,14 +1397,17 @@ func (c *Client) waitForReply(id wamp.ID) (wamp.Message, error) {
 // run() goroutine may be blocked waiting for a reply to be read from the
 // awaiting reply channel.
 func (c *Client) waitForReplyWithCancel(ctx context.Context, id wamp.ID, procedure string, progChan chan<- *wamp.Result) (wamp.Message, error) { //nolint:lll
-	var wait chan wamp.Message
+	var w *replyWaiter
 	var ok bool
 	c.sess.Lock()
-	wait, ok = c.awaitingReply[id]
+	w, ok = c.awaitingReply[id]
 	c.sess.Unlock()
 	if !ok {
 		return nil, fmt.Errorf("not expecting reply for ID: %v", id)
 	}
+	// Whichever way this returns, release run() if it is handing over a reply.
+	defer close(w.gone)
+	wait := w.ch
 
 	var msg wamp.Message
 	var err error
@@ -1951,7 +1976,7 @@ func (c *Client) runHandleInterrupt(msg *wamp.Interrupt) {
 }
 
 func (c *Client) runSignalReply(msg wamp.Message, requestID wamp.ID) {
-	var w chan wamp.Message
+	var w *replyWaiter
 	var ok bool
 	c.sess.Lock()
 	w, ok = c.awaitingReply[requestID]
@@ -1962,7 +1987,12 @@ func (c *Client) runSignalReply(msg wamp.Message, requestID wamp.ID) {
 		return
 	}
 	select {
-	case w <- msg:
+	case w.ch <- msg:
+	case <-w.gone:
+		// The waiter timed out, was canceled, or saw the client stop after
+		// the lookup above.
+		c.log.Println("Received", msg.MessageType(), requestID,
+			"that client is no longer waiting for")
 	case <-c.Done():
 	}
 }
